@@ -25,6 +25,20 @@ class LoopSpec(object):
         self.lemmas_tail = []
         self.acc = None          # (name, elem descriptor) accumulator of yielded values
         self.consts = []         # (name, expr): ghost constants fixed at loop entry
+        self.by_prop = {}        # property id -> {'head': [...], 'tail': [...], 'invariants': [...]}
+        self.havoc_stmts = []
+
+    def for_prop(self, pid, head=(), tail=(), invariants=()):
+        d = self.by_prop.setdefault(pid, {'head': [], 'tail': [], 'invariants': []})
+        d['head'].extend(head)
+        d['tail'].extend(tail)
+        d['invariants'].extend(invariants)
+        return self
+
+    def parts(self, pid):
+        d = self.by_prop.get(pid, {})
+        return (self.lemmas_head + d.get('head', []), self.lemmas_tail + d.get('tail', []),
+                self.invariants + d.get('invariants', []))
 
 
 class Contract(object):
